@@ -72,10 +72,13 @@ Definition compact (rs : list irec) : bytes :=
 Definition rec_width (r : irec) : N := blen (r_digest r) + 8.
 
 (* multiWidthIndex.Load onto an existing index: buckets of the new records replace buckets of
-   the same width *)
-Definition mwi_load (rs : list irec) (m : mwi) : mwi :=
-  fold_left (fun acc g => kv_put (fst g) (compact (sort_by_digest (snd g))) acc)
+   the same width.  Go sorts each bucket with sort.Sort, which is NOT stable; [srt] stands for
+   whatever sort.Sort does (contract: a digest-sorted permutation of its input, see
+   proofs/IndexSort.v [sort_contract]); the executable instance is the stable insertion sort. *)
+Definition mwi_load_with (srt : list irec -> list irec) (rs : list irec) (m : mwi) : mwi :=
+  fold_left (fun acc g => kv_put (fst g) (compact (srt (snd g))) acc)
             (group_by rec_width rs) m.
+Definition mwi_load (rs : list irec) (m : mwi) : mwi := mwi_load_with sort_by_digest rs m.
 
 Definition swi_marshal (b : N * bytes) : bytes :=
   le_enc 4 (fst b) ++ le_enc 8 (blen (snd b)) ++ snd b.
@@ -83,6 +86,9 @@ Definition mwi_marshal (m : mwi) : bytes :=
   le_enc 4 (N.of_nat (length m)) ++ concat (map swi_marshal m).
 
 Definition max_width : N := 33554432.
+(* runtime.maxAlloc on linux/amd64 (1 << 48): make([]byte, n) with n above it panics
+   "makeslice: len out of range"; below it the allocation is attempted (DESIGN section 6 #9, C09) *)
+Definition max_alloc : N := 281474976710656.
 
 (* singleWidthIndex.Unmarshal: Ok ((width, data), rest) *)
 Definition swi_unmarshal (s : bytes) : res ((N * bytes) * bytes) :=
@@ -95,6 +101,7 @@ Definition swi_unmarshal (s : bytes) : res ((N * bytes) * bytes) :=
   if width <? 8 then Err EOther
   else if max_width <? width then Err EOther
   else if two63 <=? dlen then Err EOther
+  else if max_alloc <? dlen then Err EPanic                     (* buf := make([]byte, dataLen) *)
   else if (0 <? dlen) && (blen s2 =? 0) then Err EEof          (* io.ReadFull: nothing read *)
   else if blen s2 <? dlen then Err EUnexpectedEof
   else Ok ((width, take dlen s2), drop dlen s2).
@@ -169,8 +176,9 @@ Definition mwi_foreach (m : mwi) : list (bytes * N) := concat (map swi_foreach m
 (* ---- MultihashIndexSorted: code -> multi-width index ------------------------------------ *)
 Definition mhidx := list (N * mwi).
 
-Definition mh_load (rs : list irec) (m : mhidx) : mhidx :=
-  fold_left (fun acc g => kv_put (fst g) (mwi_load (snd g) []) acc) (group_by r_code rs) m.
+Definition mh_load_with (srt : list irec -> list irec) (rs : list irec) (m : mhidx) : mhidx :=
+  fold_left (fun acc g => kv_put (fst g) (mwi_load_with srt (snd g) []) acc) (group_by r_code rs) m.
+Definition mh_load (rs : list irec) (m : mhidx) : mhidx := mh_load_with sort_by_digest rs m.
 
 Definition mh_marshal (m : mhidx) : bytes :=
   le_enc 4 (N.of_nat (length m)) ++
@@ -217,8 +225,12 @@ Definition idx_new (codec : N) : option index :=
   else None.
 Definition idx_codec (i : index) : N :=
   match i with IdxSorted _ => codec_sorted | IdxMh _ => codec_mh_sorted end.
-Definition idx_load (rs : list irec) (i : index) : index :=
-  match i with IdxSorted m => IdxSorted (mwi_load rs m) | IdxMh m => IdxMh (mh_load rs m) end.
+Definition idx_load_with (srt : list irec -> list irec) (rs : list irec) (i : index) : index :=
+  match i with
+  | IdxSorted m => IdxSorted (mwi_load_with srt rs m)
+  | IdxMh m => IdxMh (mh_load_with srt rs m)
+  end.
+Definition idx_load (rs : list irec) (i : index) : index := idx_load_with sort_by_digest rs i.
 Definition idx_marshal (i : index) : bytes :=
   match i with IdxSorted m => mwi_marshal m | IdxMh m => mh_marshal m end.
 (* index.WriteTo: codec varint then Marshal; the reported length is blen of this *)
@@ -243,14 +255,85 @@ Definition idx_read (s : bytes) : res (index * bytes) :=
   end.
 
 (* InsertionIndex.Flatten(codec) *)
-Definition ii_flatten (codec : N) (ii : iidx) : option index :=
+Definition ii_flatten_with (srt : list irec -> list irec) (codec : N) (ii : iidx) : option index :=
   match idx_new codec with
-  | Some i => Some (idx_load (ii_flatten_records ii) i)
+  | Some i => Some (idx_load_with srt (ii_flatten_records ii) i)
   | None => None
   end.
+Definition ii_flatten (codec : N) (ii : iidx) : option index := ii_flatten_with sort_by_digest codec ii.
 
 (* layer B: what a lookup must return -- offsets of the records carrying that key *)
 Definition spec_offsets_digest (rs : list irec) (d : bytes) : list N :=
   map r_off (filter (fun r => bytes_eqb (r_digest r) d) rs).
 Definition spec_offsets_mh (rs : list irec) (code : N) (d : bytes) : list N :=
   map r_off (filter (fun r => (r_code r =? code) && bytes_eqb (r_digest r) d) rs).
+
+(* ---- the byte count the writers REPORT (computed by the Go code, not measured) ----------- *)
+Definition swi_marshal_len (b : N * bytes) : N := 4 + 8 + blen (snd b).
+Definition mwi_marshal_len (m : mwi) : N :=
+  fold_left (fun l b => l + swi_marshal_len b) m 4.
+Definition mh_marshal_len (m : mhidx) : N :=
+  fold_left (fun l cm => l + (8 + mwi_marshal_len (snd cm))) m 4.
+Definition idx_marshal_len (i : index) : N :=
+  match i with IdxSorted m => mwi_marshal_len m | IdxMh m => mh_marshal_len m end.
+(* index.WriteTo: uint64(n) + l *)
+Definition idx_write_len (i : index) : N := uv_size (idx_codec i) + idx_marshal_len i.
+
+(* ---- canonical form: the one freedom the format leaves ------------------------------------ *)
+(* Entries sharing a digest may appear in any relative order (sort.Sort is unstable);
+   [canon] orders every bucket by (digest, offset).  On a digest-sorted bucket this only
+   permutes inside runs of equal digests (proofs/IndexCanon.v). *)
+Definition entry := (bytes * N)%type.     (* digest, offset *)
+Definition entry_leb (a b : entry) : bool :=
+  match bytes_cmp (fst a) (fst b) with
+  | Lt => true
+  | Gt => false
+  | Eq => snd a <=? snd b
+  end.
+Fixpoint ins_entry (x : entry) (l : list entry) : list entry :=
+  match l with
+  | [] => [x]
+  | y :: t => if entry_leb x y then x :: l else y :: ins_entry x t
+  end.
+Definition sort_entries (l : list entry) : list entry := fold_right ins_entry [] l.
+Definition compact_entries (l : list entry) : bytes :=
+  concat (map (fun e => fst e ++ le_enc 8 (snd e)) l).
+Definition swi_canon (b : N * bytes) : N * bytes :=
+  (fst b, compact_entries (sort_entries (swi_foreach b))).
+Definition mwi_canon (m : mwi) : mwi := map swi_canon m.
+Definition mh_canon (m : mhidx) : mhidx := map (fun cm => (fst cm, mwi_canon (snd cm))) m.
+Definition idx_canon (i : index) : index :=
+  match i with IdxSorted m => IdxSorted (mwi_canon m) | IdxMh m => IdxMh (mh_canon m) end.
+
+(* ---- executable well-formedness of the on-disk order ("buckets ascend by code then width,
+   entries ascend by digest") -------------------------------------------------------------- *)
+Fixpoint ascending (l : list N) : bool :=
+  match l with
+  | a :: ((b :: _) as t) => (a <? b) && ascending t
+  | _ => true
+  end.
+Fixpoint digests_sorted (l : list bytes) : bool :=
+  match l with
+  | a :: ((b :: _) as t) => bytes_leb a b && digests_sorted t
+  | _ => true
+  end.
+Definition swi_sortedb (b : N * bytes) : bool := digests_sorted (map fst (swi_foreach b)).
+Definition mwi_sortedb (m : mwi) : bool := ascending (map fst m) && forallb swi_sortedb m.
+Definition mh_sortedb (m : mhidx) : bool :=
+  ascending (map fst m) && forallb (fun cm => mwi_sortedb (snd cm)) m.
+Definition idx_sortedb (i : index) : bool :=
+  match i with IdxSorted m => mwi_sortedb m | IdxMh m => mh_sortedb m end.
+
+(* does any bucket hold two entries with one digest?  (then sort.Sort's choice shows in the bytes) *)
+Fixpoint adjacent_dup (l : list bytes) : bool :=
+  match l with
+  | a :: ((b :: _) as t) => bytes_eqb a b || adjacent_dup t
+  | _ => false
+  end.
+Definition swi_has_ties (b : N * bytes) : bool := adjacent_dup (map fst (swi_foreach b)).
+Definition mwi_has_ties (m : mwi) : bool := existsb swi_has_ties m.
+Definition idx_has_ties (i : index) : bool :=
+  match i with
+  | IdxSorted m => mwi_has_ties m
+  | IdxMh m => existsb (fun cm => mwi_has_ties (snd cm)) m
+  end.
